@@ -385,7 +385,8 @@ class Harness:
     """
     def __init__(self, m, mod='m', script=None, n_inst=1, ref_pages=None, sym_window=0, max_host_calls=6,
                  prefix=False, check_instantiation=True, float_exact=None, tab_slots=None, futex_stub=False,
-                 child_of=None, arg_assume=None, page=65536):
+                 child_of=None, arg_assume=None, page=65536, assume_no_trap=False):
+        self.assume_no_trap = assume_no_trap
         self.page = page
         self.m, self.mod = m, mod
         self.script = script or []
@@ -731,6 +732,8 @@ class Harness:
             else:
                 w('    rr = R_f%d(&RS[%d]%s);' % (fi, inst, ''.join(', ' + a for a in args_r)))
             w('    V_ASSUME(!R_stop);')
+            if self.assume_no_trap:
+                w('    V_ASSUME(!R_trap);')
             w('    expecting_trap = R_trap != 0; phase_real = 1; cur_inst = RI[%d]; cur_id = %d;' % (inst, inst))
             call = '%s(RI[%d]%s)' % (self.export_sym(name), inst, ''.join(', ' + a for a in args_i))
             if rs:
